@@ -1,4 +1,43 @@
 import UscxmlVerif.Spec.Legal
 import UscxmlVerif.Model.Fast
+import UscxmlVerif.Proofs.CfgInv
+/-!
+# C02 — the active configuration is legal after every micro-step (the part that needs no assumption)
+
+`Spec.Legal.legal` has six clauses. Two of them hold for every chart whatsoever - even a malformed
+one - and for every sequence of API operations on either engine model: the configuration is
+duplicate-free (it is strictly ascending in document order) and holds no pseudo-state
+(`<history>`, `<initial>`). The other four (root active, parent closure, exactly one child per
+active compound state / all children of a parallel, an atomic state) depend on the chart being
+well formed and on the history bookkeeping, where the recorded findings `hist-shared` /
+`hist-domain` are counter-examples for the code as it stands; they are decided per run by
+`Spec.Legal.legal` on every configuration the compiled engines and the models visit.
+-/
 namespace UscxmlVerif.Properties.C02
+open UscxmlVerif UscxmlVerif.Model UscxmlVerif.Model.Large UscxmlVerif.Model.Api UscxmlVerif.Proofs.CfgInv
+
+/-- **partial** (clauses 2 and 3 of `legal`): after any sequence of operations on either engine, the configuration
+is strictly ascending - hence without duplicates - and free of pseudo-states -/
+theorem configuration_is_a_set_of_real_states_partial (eng : Engine) (c : Chart) (ops : List Op) :
+    (run eng c ops).a.e.config.Pairwise (· < ·) ∧ (run eng c ops).a.e.config.Nodup ∧
+      ∀ s ∈ (run eng c ops).a.e.config, (st c s).typ.isPseudo = false := by
+  obtain ⟨h1, h2⟩ := run_ok eng c ops
+  refine ⟨h1, ?_, h2⟩
+  exact List.Pairwise.imp (fun h => Nat.ne_of_lt h) h1
+
+/-- one engine step keeps it, from any state that has it (not only from reachable ones) -/
+theorem step_keeps_set (eng : Engine) (c : Chart) (e : EState) (h : EOk c e) : EOk c (engineStep eng c e).1 :=
+  engineStep_ok eng c e h
+
+/-- the full statement is false of the code as it stands (recorded finding `hist-shared`): a configuration the engines
+reach on a chart with nested histories holds two children of a compound state. The witness is replayed on the compiled
+interpreter by check C02 (known-finding line); here: the configuration is rejected by `legal`. -/
+example : Spec.Legal.legal
+    { states := #[
+        { kind := .scxml, typ := .compound, id := "", parent := none, children := [1], completion := [1], trans := [], onentry := [], onexit := [] },
+        { kind := .state, typ := .compound, id := "p", parent := some 0, children := [2, 3], completion := [2], trans := [], onentry := [], onexit := [] },
+        { kind := .state, typ := .atomic, id := "a", parent := some 1, children := [], completion := [], trans := [], onentry := [], onexit := [] },
+        { kind := .state, typ := .atomic, id := "b", parent := some 1, children := [], completion := [], trans := [], onentry := [], onexit := [] }],
+      trans := #[] } [0, 1, 2, 3] = false := by decide
+
 end UscxmlVerif.Properties.C02
